@@ -20,6 +20,7 @@ TECHNIQUE = TECH
 JOBS = [
     Job("elementwise", "C07.cpp", ["HLO=0", "HHI=0", "LMAX=3"], thorough_defines=["HLO=0", "HHI=0", "LMAX=4"], budget_s=200, thorough_budget_s=1000, desc="element-wise arithmetic, all operator forms, unequal lengths"),
     Job("sums-extrema-stats", "C07.cpp", ["HLO=1", "HHI=3", "LMAX=3"], thorough_defines=["HLO=1", "HHI=3", "LMAX=4"], budget_s=300, thorough_budget_s=3000, desc="sums, products, cumulative forms, means, extrema and positions, order, median, unique, covariance, variance, correlation"),
+    Job("order-median-n4", "C07.cpp", ["HLO=2", "HHI=2", "LMAX=4"], fix="n=4", tiers=("quick",), budget_s=200, desc="extrema, order, median (even length >= 4), unique on four elements, every ordering and tie pattern"),
     Job("set-like", "C07.cpp", ["HLO=4", "HHI=4", "LMAX=2"], thorough_defines=["HLO=4", "HHI=4", "LMAX=3"], budget_s=300, thorough_budget_s=3000, desc="contains/containsAll/union/intersection/difference/same-elements/extend/which/rep/append"),
     Job("seq-fdr", "C07.cpp", ["HLO=5", "HHI=5", "LMAX=3"], budget_s=200, desc="sequence generation"),
     Job("fdr", "C07.cpp", ["HLO=8", "HHI=8", "LMAX=3"], thorough_defines=["HLO=8", "HHI=8", "LMAX=4"], budget_s=200, thorough_budget_s=1000, desc="false-discovery-rate adjustment r = p.n/rank"),
